@@ -350,7 +350,27 @@ pub fn draw_history(rng: &mut ChaCha8Rng, p: &Profile, max_ops: usize) -> Scenar
                 history.push(HOp::SetRange(a, b));
             }
             _ => {
-                if rng.random_range(0..2) == 0 {
+                let what = rng.random_range(0..4);
+                if what == 2 && !p.defaults_only {
+                    // an interlude in the other mode on the same generator: switch, one or two
+                    // calls, switch back (calls are judged under the mode in force for them)
+                    let cur = history
+                        .iter()
+                        .rev()
+                        .find_map(|h| match h {
+                            HOp::SetUnsafe(u) => Some(*u),
+                            _ => None,
+                        })
+                        .unwrap_or(config.unsafe_mutations);
+                    history.push(HOp::SetUnsafe(!cur));
+                    for _ in 0..rng.random_range(1..3) {
+                        history.push(HOp::Gen(draw_entropy(rng, p, &mut faults)));
+                        gens += 1;
+                    }
+                    history.push(HOp::SetUnsafe(cur));
+                } else if what == 3 && !p.defaults_only {
+                    history.push(HOp::SetMutators(draw_mutators(rng, p)));
+                } else if what == 0 {
                     let (r, _) = draw_rate(rng, p);
                     history.push(HOp::SetRate(r));
                 } else {
